@@ -211,6 +211,12 @@ def run(db, tier):
             rep.check(any(c.endswith("Iterator::next") for c in calls), "R-RECOGNISE", "reg_call|expected-register-order", g.loc,
                       "argument registers must appear in the call convention's order", "the expected argument register sequence is no longer consulted")
 
+    from rules import guardrel
+    rep.rule("R-GUARD-REL", "each relation that was required before instructions are folded (diff switch, two-part intrinsic, register call) on the reviewed "
+                            "tree is still implied by a current guard with the same operands: guards may be tightened, not dropped, weakened or inverted")
+    n_gr = guardrel.check(db, rep, ["recognize_diff_switch|fold", "recognize_double_instr_intrinsic|fold", "recognize_reg_call|fold"])
+    rep.floor("frozen guard relations (recognisers)", n_gr, 5)
+
     # ---------------- R-JUMP-ARGS
     lo = db.fn("llir::lower::intrinsic::populate_time_args")
     ra = db.fn("llir::raise::early::AtomRaiser::<'_, '_>::raise_intrinsic_parts")
